@@ -8,7 +8,12 @@ pub struct Rng(pub u64);
 
 impl Rng {
     pub fn new(seed: u64) -> Rng {
-        Rng(seed.wrapping_mul(0x9E37_79B9_7F4A_7C15).wrapping_add(0x1234_5678_9ABC_DEF1))
+        // run the seed through the output mixer twice so that consecutive seeds give unrelated
+        // states (state = seed * golden would make stream(seed+1) a shifted copy of stream(seed))
+        let mut r = Rng(seed ^ 0x5851_F42D_4C95_7F2D);
+        let a = r.next_u64();
+        let b = r.next_u64();
+        Rng(a ^ b.rotate_left(29) ^ seed.rotate_left(47))
     }
     pub fn next_u64(&mut self) -> u64 {
         self.0 = self.0.wrapping_add(0x9E37_79B9_7F4A_7C15);
